@@ -720,9 +720,9 @@ LEVEL_TEXT = ("Machine-checked theorems over Lean models of the reader (input.cp
               "statements (missing/wrong instrument, note range: the command itself on a channel track, the calling JUMP for a subroutine) are NOT proved "
               "as theorems: they rest on the fault-injection check (the property's clauses evaluated by Spec/Diag on the real what() text for one fault "
               "of each of 13 kinds at every command position) together with model<->code agreement on every message. Two defects were found and "
-              "repaired (152f2d8: reference stayed in the subroutine after a return; 0680dc7: '%n' events carried a stale or no reference).")
+              "repaired (51fb87b: reference stayed in the subroutine after a return; 1763cac: '%n' events carried a stale or no reference).")
 LEVEL_NOTE = ("Trusted: Lean kernel (propext, Classical.choice, Quot.sound at most), the hand-written models Model/Lexer, Model/Mml (+ Model/MmlFix: the '%' branch "
-              "after fix 0680dc7), Model/Player, Model/MdsConv and the wrappers of Model/Refs (agreement with the C++ established by differential testing on "
+              "after fix 1763cac), Model/Player, Model/MdsConv and the wrappers of Model/Refs (agreement with the C++ established by differential testing on "
               "stage + what() of the whole pipeline, not proved), Spec/Diag (my reading of the property), the generator's token map. "
               "C17_full_statement_parse_error_column is kept as a definition and is not proved.")
 RULE = ("valid songs (FM/PSG/PCM channel tracks, subroutine tracks, loops with breaks, calls, instruments, loop point; single-/multi-line with "
